@@ -83,6 +83,7 @@ def c04(ck, F, tier):
     guarded(ck, um.push_last, F)
     import rules_struct as rs
     guarded(ck, rs.validate_first, F)
+    guarded(ck, rs.validate_first_wide, F)
 
 
 def c23(ck, F, tier):
